@@ -256,10 +256,13 @@ KEYS = ["a", "b", "c"]
 DICT_OPS = ["MatchesDict", "ContainsDict", "ContainedByDict", "KeysEqual"]
 
 
+FALSY = [None, 0, "", None]      # index 0 = use the symbolic value
+
+
 def h_dict(op: int, ek: int, ok: int, o0: int, o1: int, o2: int, p0: int, p1: int, p2: int,
-           va: int, vb: int, vc: int) -> bool:
+           va: int, vb: int, vc: int, falsy: int) -> bool:
     """
-    pre: 0 <= op < 4 and 0 <= ek < 8 and 0 <= ok < 8
+    pre: 0 <= op < 4 and 0 <= ek < 8 and 0 <= ok < 8 and 0 <= falsy < 4
     pre: 0 <= o0 < 8 and 0 <= o1 < 8 and 0 <= o2 < 8
     post: _
     """
@@ -279,6 +282,10 @@ def h_dict(op: int, ek: int, ok: int, o0: int, o1: int, o2: int, p0: int, p1: in
             dens[key] = d
             descs.append("%s: %s" % (key, s))
     vals = [V(va), V(vb), V(vc)]
+    fz = ch.sel("falsy", falsy, 4)
+    if fz:
+        # observed values that are falsy Python objects (0, "", None): a verdict must not depend on truthiness
+        vals = [FALSY[fz]] * 3
     observed = {}
     for i, key in enumerate(KEYS):
         if o & (1 << i):
@@ -297,8 +304,9 @@ def h_dict(op: int, ek: int, ok: int, o0: int, o1: int, o2: int, p0: int, p1: in
     want, problems = check_match(
         m, den, observed,
         vcopy=lambda: set(observed) == set(snap_obs) and all(observed[k] is snap_obs[k] for k in snap_obs))
+    ch.LAST["matchee"] = repr(observed)
     v = {"op": DICT_OPS[opc], "expected": "{%s}" % ", ".join(descs) if opc != 3 else sorted(expected),
-         "observed_keys": sorted(okeys), "verdict": want}
+         "observed_keys": sorted(okeys), "verdict": want, "falsy": fz}
     return ch.finish(not problems, v, nontrivial=bool(ekeys or okeys))
 
 
@@ -381,8 +389,46 @@ RAISED = {1: (ValueError, ("a",)), 2: (ValueError, ("b",)), 3: (KeyError, ("a",)
           4: (KeyboardInterrupt, ()), 5: (_KI, ())}
 
 
+def _warner(kind):
+    import warnings as _w
+
+    def f():
+        if kind == 1:
+            _w.warn("old", DeprecationWarning)
+        elif kind == 2:
+            for _ in range(2):
+                _w.warn("old", DeprecationWarning)       # the same warning twice from the same line
+        elif kind == 3:
+            _w.warn("old", DeprecationWarning)
+            _w.warn("other", UserWarning)
+        return kind
+    return f
+
+
+N_WARN = {0: 0, 1: 1, 2: 2, 3: 2}
+
+
+def run_warn(kind, j):
+    """Warnings()/Warnings(HasLength(k))/IsDeprecated over callables emitting 0, 1, 2 identical, 2 different warnings."""
+    n = N_WARN[kind]
+    if j == 0:
+        m, want = M.Warnings(), n >= 1
+    elif j in (1, 2, 3):
+        m, want = M.Warnings(M.HasLength(j - 1)), n == j - 1
+    else:
+        m, want = M.IsDeprecated(M.Contains("old")), kind == 1
+    got1 = verdict(m, _warner(kind))
+    got2 = verdict(m, _warner(kind))
+    problems = []
+    if got1 != want or got2 != got1:
+        problems.append("%s on a callable emitting %d warnings: %s then %s, expected %s" % (m, n, got1, got2, want))
+    return {"case": "%s x warner%d" % (m, kind), "problems": problems}
+
+
 def run_fin(group, i, j):
-    """group 0: StartsWith/EndsWith/Contains over strings; 1: bytes; 2: Raises x callables."""
+    """group 0: StartsWith/EndsWith/Contains over strings; 1: bytes; 2: Raises x callables; 3: Warnings."""
+    if group == 3:
+        return run_warn(i % 4, j % 5)
     problems = []
     if group in (0, 1):
         strs = STRS if group == 0 else BSTRS
@@ -425,13 +471,13 @@ def run_fin(group, i, j):
 
 def h_fin(group: int, i: int, j: int) -> bool:
     """
-    pre: 0 <= group < 3 and 0 <= i < 49 and 0 <= j < 7
+    pre: 0 <= group < 4 and 0 <= i < 49 and 0 <= j < 7
     post: _
     """
     try:
-        g = ch.sel("group", group, 3)
-        ii = ch.sel("i", i, 49 if g == 0 else (16 if g == 1 else 6))
-        jj = ch.sel("j", j, 3 if g < 2 else 7)
+        g = ch.sel("group", group, 4)
+        ii = ch.sel("i", i, [49, 16, 6, 4][g])
+        jj = ch.sel("j", j, [3, 3, 7, 5][g])
     except ch.Prune:
         return True
     o = run_fin(g, ii, jj)
@@ -483,19 +529,20 @@ HARNESSES = [
             rule="non-trivial = non-empty list", sym=("p0", "p1", "p2", "x0", "x1", "x2"), twin_fix={"op": 0, "n": 2}),
     Harness("dict", h_dict, lambda tier: [({"op": k, "ek": e}, 600) for k in range(4) for e in range(8)],
             bounds={"quick": "MatchesDict / ContainsDict / ContainedByDict / KeysEqual with every expected key set over {a,b,c} "
-                             "(leaf matchers with symbolic parameters) x every observed key set with symbolic int values"},
+                             "(leaf matchers with symbolic parameters) x every observed key set with symbolic int values or with falsy values (0, '', None)"},
             rule="non-trivial = some key on either side", sym=("p0", "p1", "p2", "va", "vb", "vc"),
             twin_fix={"op": 0, "ek": 3}),
     Harness("struct", h_struct, lambda tier: [({"variant": k}, 600) for k in range(5)],
             bounds={"quick": "MatchesStructure (direct, byEquality, byMatcher, fromExample, update) over leaf matchers with symbolic "
                              "parameters; object with symbolic int attributes"},
             rule="every path non-trivial", sym=("p0", "p1", "p2", "x", "y")),
-    Harness("fin", h_fin, lambda tier: [({"group": g}, 600) for g in range(3)],
+    Harness("fin", h_fin, lambda tier: [({"group": g}, 600) for g in range(4)],
             bounds={"quick": "StartsWith/EndsWith/Contains over 7x7 strings and 4x4 byte strings; Raises() with 7 exception "
                              "matchers x 6 callables (return, ValueError a/b, KeyError, KeyboardInterrupt and a subclass) incl. the "
-                             "propagation rule for non-Exception errors"},
+                             "propagation rule for non-Exception errors; Warnings() / Warnings(HasLength(0..2)) / IsDeprecated over callables "
+                             "emitting 0, 1, 2 identical (same line) and 2 different warnings"},
             rule="every path non-trivial",
-            fidelity=lambda seed: [(g, i, j) for g in range(3) for i in range(6) for j in range(3)],
+            fidelity=lambda seed: [(g, i, j) for g in range(4) for i in range(4) for j in range(3)],
             observe=lambda g, i, j: run_fin(g, i, j), describe=run_fin),
 ]
 OUTSIDE = ["verdicts of MatchesRegex, DocTestMatches, filesystem/tarball and Warnings leaves for arbitrary patterns/paths (C regex, OS state)",
